@@ -64,6 +64,9 @@ func (p *printer) src(e *Expr, multi bool, ind int) string {
 	case "true", "false":
 		return e.Kind
 	case "concat":
+		if multi && e.Cmt {
+			return p.src(&e.Args[0], false, ind) + " + // joined" + nl + p.src(&e.Args[1], false, ind)
+		}
 		return p.src(&e.Args[0], false, ind) + " +" + nl + p.src(&e.Args[1], false, ind)
 	case "sprintf":
 		p.imports["fmt"] = true
@@ -407,6 +410,14 @@ func (p *printer) node(n *Node, ind int) {
 		p.w("{ children... }")
 	case "gocode":
 		p.w("{{ ")
+		if n.E.Cmt {
+			// a trailing line comment: the closing braces have to stay off its line
+			p.expr("raw go", n.Var+" := "+p.src(n.E, false, ind)+" // kept for later")
+			p.w("\n")
+			p.indent(ind)
+			p.w("}}")
+			return
+		}
 		p.expr("raw go", n.Var+" := "+p.src(n.E, false, ind))
 		p.w(" }}")
 	case "htmlcomment":
